@@ -35,8 +35,8 @@ func runGCommit(c *Ctx) {
 	sh := c.newShard("g13", runnerG, "caseG", "mismatches", "violations13")
 	sh.prelude = gPrelude
 	sh.limit = 110
-	nMem := c.pick(12, 60)
-	nFs := c.pick(4, 14)
+	nMem := c.pick(12, 160)
+	nFs := c.pick(4, 40)
 	for s := 0; s < nMem; s++ {
 		gCommitScenario(c, sh, s, false)
 	}
